@@ -107,6 +107,8 @@ void h_puttxtbin(void)
 	__CPROVER_assert(r >= -1 && r <= (int)bufremain, "puttxtbin returns -1 or at most the space");
 	__CPROVER_assert(__CPROVER_same_object(p, out) && p >= out && p <= out + bufremain, "puttxtbin cursor stays inside the buffer");
 	__CPROVER_assert(r < 0 || (p == out + r && (size_t)r == fromremain + (fromremain + 251) / 252), "puttxtbin: total = data + one length byte per 252-byte string");
+	__CPROVER_assert((r < 0) == (fromremain + (fromremain + 251) / 252 > bufremain), "puttxtbin fails exactly when the tiling does not fit");
+	__CPROVER_assert(r >= 0 || ((size_t)(p - out) % 253 == 0 && (size_t)(p - out) / 253 <= fromremain / 252), "puttxtbin on failure has written only whole 252-byte strings");
 	VERIF_REACH();
 }
 
